@@ -1165,6 +1165,10 @@ fn run_inner(ctx: &mut Ctx, mode: DMode, transcripts: bool) -> RunResult {
             } else {
                 ctx.probe("d.publish_scenario");
             }
+            if mode == DMode::C19 {
+                transcript::check_announced(ctx, &w.srv.c, w.cfg.s_chunk, w.cfg.s_win, Some(w.cfg.bw))?;
+                transcript::check_announced(ctx, &w.cli.c, w.cfg.c_chunk, w.cfg.c_win, None)?;
+            }
             if transcripts {
                 for node in [&w.srv.c, &w.cli.c] {
                     transcript::check(ctx, node)?;
